@@ -300,7 +300,7 @@ def run(run, tier, loadcfg):
                        'at v = 0 and compute the documented ratio; setters write only the ratio; MulHz pulls one control frame, sets the ratio, pulls the converter once; '
                        'Floor/Linear state updates and the blend polynomial l + (r-l)x. Positions floor(P_n)/fractions follow by induction (Appendix C.4); float drift is not decided.')
     run.assumptions = ['amplitude abstraction: sample conversions are the identity on the real amplitude (C01/C02)', 'floating-point rounding ignored in polynomial identities']
-    for cfg in ['std-debug'] + (['nostd'] if tier == 'thorough' else []):
+    for cfg in ['std-debug', 'std-release'] + (['nostd'] if tier == 'thorough' else []):
         fx_ = loadcfg(cfg, optional=(cfg == 'nostd'))
         if fx_ is None:
             continue
